@@ -137,3 +137,26 @@ def strip_def(x):
 
 def only_chars(s, chars):
     return all(c in chars for c in s)
+
+
+def cur(x):
+    """the current object a snapshot object stands for"""
+    memo = _STATE.get("memo")
+    if memo is not None:
+        rev = _STATE.get("rev")
+        if rev is None or rev[0] is not memo:
+            import ctypes
+            d = {}
+            for k, v in memo.items():
+                if isinstance(k, int):
+                    d[id(v)] = k
+            rev = (memo, d)
+            _STATE["rev"] = rev
+        oid = rev[1].get(id(x))
+        if oid is not None:
+            keep = memo.get(id(memo))
+            if keep is not None:
+                for o in keep:
+                    if id(o) == oid:
+                        return o
+    return x
